@@ -218,6 +218,7 @@ def gen_code(rnd, org, m128, isr_addr, buf):
     if m128:
         frag_w += [
             (6, lambda: [0x01, 0xFD, 0x7F, 0x3E, rnd.choice((0, 1, 3, 4, 6, 7, 0x10, 0x11, 0x13, 0x14, 0x16, 0x17, 0x18, 0x0F, 0x30 if rnd.random() < 0.15 else 0x15)), 0xED, 0x79]),
+            (2, lambda: [0x01, 0xFD, 0x7F, 0x3E, 0x20 | rnd.randrange(8) | rnd.choice((0, 0x10)), 0xED, 0x79, 0x3E, rnd.randrange(8) | rnd.choice((0, 0x10)), 0xED, 0x79]),  # lock, then try to page
             (4, lambda: [0x3A] + w(0xC000 + rnd.randrange(8)) + [0x3C, 0x32] + w(0xC000 + rnd.randrange(8))),   # touch the paged bank
             (2, lambda: [0x01, 0xFD, 0xFF, 0x3E, rnd.randrange(18), 0xED, 0x79, 0x06, 0xBF, 0xED, 0x59]),        # AY select ; AY write E
         ]
@@ -465,7 +466,16 @@ class Recording:
     pass
 
 
-def record(m, plan, conv, cmio, inmode, inseed, splits=(), empties=False, zero_memptr=False, max_steps=60000):
+def perturb_sim(sim):
+    """A discontinuity in the recorded run (the recorder rolled back / loaded something): from here on only the
+    embedded snapshot tells the player where the machine is."""
+    r = sim.registers
+    r[A] ^= 0x55
+    r[E] = (r[E] + 1) & 0xFF
+    r[xH] ^= 0x80
+
+
+def record(m, plan, conv, cmio, inmode, inseed, splits=(), empties=False, zero_memptr=False, max_steps=60000, snapmodes=()):
     """Run the program of machine `m` and cut it into len(plan) frames (plan[i] = fetches after which the frame may
     end).  splits: frame counts after which a new block (snapshot of the current state) starts."""
     sim = build_sim(m, cmio)
@@ -473,7 +483,7 @@ def record(m, plan, conv, cmio, inmode, inseed, splits=(), empties=False, zero_m
     sim.set_tracer(pm)
     r, mem = sim.registers, sim.memory
     rec = Recording()
-    rec.frames, rec.ends, rec.bounds, rec.events, rec.snaps = [], [], [], [], {}
+    rec.frames, rec.ends, rec.bounds, rec.events, rec.snaps, rec.snapmode = [], [], [], [], {}, {}
     rec.rmismatch = 0
     short = False
     steps = 0
@@ -539,8 +549,18 @@ def record(m, plan, conv, cmio, inmode, inseed, splits=(), empties=False, zero_m
                 rec.frames.append([0, []])
                 rec.ends.append({'iff': 0, 'mcls': 'other', 'dec': 'none', 'xcls': 'other'})
                 rec.bounds.append(rec.bounds[-1])
-        if len(rec.frames) in splits and pi < len(plan):
-            rec.snaps[len(rec.frames)] = machine_snapdict(sim, pm, m)
+        if len(rec.frames) in splits and pi < len(plan) and not short:
+            mode = snapmodes[len(rec.snaps) % len(snapmodes)] if snapmodes else 'same'
+            if mode == 'needed':
+                perturb_sim(sim)
+            snap = machine_snapdict(sim, pm, m)
+            if mode == 'stale':
+                # the snapshot in the file is not the state the run continues from (players must ignore it: flag 4)
+                snap['a'] ^= 0xAA
+                snap['hl'] = (snap['hl'] + 3) & 0xFFFF
+                snap['pc'] = (snap['pc'] + 1) & 0xFFFF
+            rec.snaps[len(rec.frames)] = snap
+            rec.snapmode[len(rec.frames)] = mode
     rec.final = rec.bounds[-1]
     rec.nframes = len(rec.frames)
     return rec
@@ -673,7 +693,7 @@ def _same_modulo_memptr(a, b):
 
 
 def _blocks_json(blocks):
-    return [{'fs': [{'fc': fc, 'ic': ic, 'ins': list(ins)} for fc, ic, ins in b['fs']],
+    return [{'fs': [{'fc': fc, 'ic': ic, 'ins': list(ins)} for fc, ic, ins in b['fs']], 'snapmode': b['snapmode'],
              'ends': [{'iff': e['iff'], 'mcls': e['mcls'], 'dec': e['dec']} for e in b['ends']]} for b in blocks]
 
 
@@ -730,7 +750,7 @@ def build_rzx(m0, rec, fmt, rnd):
         out += rzx_snapshot(snapshot_bytes(snap, _snap_fmt(snap, fmt)), fmt[0], rnd.random() < 0.6)
         fs = store_frames(rec.frames[a:cut], rnd)
         out += rzx_input(fs, rnd.randrange(69888), rnd.random() < 0.6)
-        blocks.append({'fs': fs, 'ends': rec.ends[a:cut], 'base': a})
+        blocks.append({'fs': fs, 'ends': rec.ends[a:cut], 'base': a, 'snapmode': rec.snapmode.get(a, 'first')})
         a = cut
         snap = rec.snaps.get(cut)
         if snap is not None and fmt[0] == 'z80':
@@ -767,14 +787,15 @@ def one_recording(rnd, wd, idx, tier, cases, traces, stats):
     nsplit = rnd.choice((0, 0, 0, 1, 1, 2))
     splits = tuple(sorted(set(rnd.randrange(1, len(plan) + 1) for _ in range(nsplit))))
     empties = rnd.random() < 0.3
+    snapmodes = tuple(rnd.choice(('same', 'same', 'needed', 'stale')) for _ in range(2))
     inseed = rnd.randrange(1 << 30)
     m0 = start_machine(m, fmt)
-    recs = {0: record(m0, plan, conv, False, inmode, inseed, splits, empties),
-            1: record(m0, plan, conv, True, inmode, inseed, splits, empties)}
+    recs = {0: record(m0, plan, conv, False, inmode, inseed, splits, empties, snapmodes=snapmodes),
+            1: record(m0, plan, conv, True, inmode, inseed, splits, empties, snapmodes=snapmodes)}
     cmio_ok = True
     if fmt[0] == 'z80':
         # a .z80 snapshot cannot carry MEMPTR: contended playback is only claimed for runs that do not depend on it
-        rz = record(m0, plan, conv, True, inmode, inseed, splits, empties, zero_memptr=True)
+        rz = record(m0, plan, conv, True, inmode, inseed, splits, empties, zero_memptr=True, snapmodes=snapmodes)
         cmio_ok = rz.frames == recs[1].frames and all(_same_modulo_memptr(x, y) for x, y in zip(rz.bounds, recs[1].bounds))
         stats['z80-memptr-sensitive'] += 0 if cmio_ok else 1
     files = {}
@@ -806,6 +827,18 @@ def one_recording(rnd, wd, idx, tier, cases, traces, stats):
     feclaim = 1 if fmt[0] == 'szx' else 0
     common = {'rec': idx, 'key': key, 'conv': conv, 'fmt': [fmt[0], fmt[1] or 0, 1 if fmt[2] else 0], 'feclaim': feclaim}
 
+    modes = set(b['snapmode'] for b in files[0][1])
+    for md in modes:
+        stats['snap:' + md] += 1
+
+    def bit2():
+        # flag 4 (ignore later snapshots) must be set for stale snapshots and clear for needed ones
+        if 'stale' in modes:
+            return 4
+        if 'needed' in modes:
+            return 0
+        return 4 if rnd.random() < 0.5 else 0
+
     def final_path(tag):
         return os.path.join(wd, 'f%d_%s.%s' % (idx, tag, 'szx' if rnd.random() < 0.7 else 'z80'))
 
@@ -819,7 +852,7 @@ def one_recording(rnd, wd, idx, tier, cases, traces, stats):
         if impl == 'c' and not cm:
             flagset = list(range(8))
         else:
-            flagset = sorted(set([conv | (4 if rnd.random() < 0.5 else 0), rnd.randrange(8)]))
+            flagset = sorted(set([conv | bit2(), rnd.randrange(8)]))
         traced = False
         for fl in flagset:
             out = final_path('%s%d_%d' % (impl, cm, fl))
@@ -848,7 +881,7 @@ def one_recording(rnd, wd, idx, tier, cases, traces, stats):
         if cm and not cmio_ok:
             cm = 0
         path, blocks, bj = files[cm]
-        fl = conv | (4 if rnd.random() < 0.5 else 0)
+        fl = conv | bit2()
         wpath = os.path.join(wd, 'w%d_%d.rzx' % (idx, k))
         werr = play(path, wpath, flags=fl, cmio=bool(cm), python=impl == 'py', stop=k)
         wsnap, wblocks, wshape, rerr, got = None, [], 0, '', None
@@ -870,7 +903,7 @@ def one_recording(rnd, wd, idx, tier, cases, traces, stats):
         # (4) rzxinfo on a written file too, against the independent decode of that file
         if wblocks and rnd.random() < 0.25:
             info, ierr = rzxinfo_frames(wpath)
-            cases.append(dict(common, kind='info', flags=0, blocks=[{'fs': fs, 'ends': []} for fs in wblocks], info=info, err=ierr, of='written:%d' % k))
+            cases.append(dict(common, kind='info', flags=0, blocks=[{'fs': fs, 'ends': [], 'snapmode': 'same'} for fs in wblocks], info=info, err=ierr, of='written:%d' % k))
             stats['infos'] += 1
         if os.path.exists(wpath):
             os.remove(wpath)
